@@ -370,6 +370,64 @@ def csharp(repo: pathlib.Path) -> Dict[str, Any]:
     return {"ranges": ranges, "repl": repl, "empty": empty, "pre": pre}
 
 
+def indent_helper(repo: pathlib.Path) -> Dict[str, Any]:
+    """`common.indent_but_first_line`: split at a one-character constant, pop a last empty line, loop, join."""
+    rel = "aas_core_codegen/common.py"
+    what = f"{rel}:indent_but_first_line"
+    fn = _func(_parse(repo, rel), "indent_but_first_line")
+    body = [s for s in fn.body if not (isinstance(s, ast.Expr) and isinstance(s.value, ast.Constant))]
+    if [a.arg for a in fn.args.args] != ["text", "indention"]:
+        raise ExtractError(f"{what}: unexpected parameters")
+    if len(body) != 5:
+        raise ExtractError(f"{what}: expected split/pop/list/loop/return, got {len(body)} statements")
+    s_split, s_pop, s_list, s_loop, s_ret = body
+    if not (
+        isinstance(s_split, ast.Assign)
+        and len(s_split.targets) == 1
+        and isinstance(s_split.targets[0], ast.Name)
+        and isinstance(s_split.value, ast.Call)
+        and isinstance(s_split.value.func, ast.Attribute)
+        and s_split.value.func.attr == "split"
+        and ast.unparse(s_split.value.func.value) == "text"
+        and len(s_split.value.args) == 1
+        and not s_split.value.keywords
+    ):
+        raise ExtractError(f"{what}: first statement is not `<lines> = text.split(<constant>)`: {ast.unparse(s_split)[:80]}")
+    lines = s_split.targets[0].id
+    split_sep = _const_str(s_split.value.args[0], what)
+    if len(split_sep) != 1:
+        raise ExtractError(f"{what}: only a one-character separator is modelled")
+    if ast.unparse(s_pop) != f"if {lines}[-1] == '':\n    {lines}.pop()":
+        raise ExtractError(f"{what}: second statement is not the pop of a last empty line: {ast.unparse(s_pop)[:80]}")
+    if not (isinstance(s_list, (ast.Assign, ast.AnnAssign)) and ast.unparse(s_list.value) == "[]"):
+        raise ExtractError(f"{what}: third statement is not the empty list of the indented lines")
+    out = ast.unparse(s_list.targets[0] if isinstance(s_list, ast.Assign) else s_list.target)
+    want_loop = (
+        f"for i, line in enumerate({lines}):\n"
+        f"    if i == 0:\n"
+        f"        {out}.append(line)\n"
+        f"    elif len(line) > 0:\n"
+        f"        {out}.append(indention + line)\n"
+        f"    else:\n"
+        f"        {out}.append(line)"
+    )
+    if ast.unparse(s_loop) != want_loop:
+        raise ExtractError(f"{what}: the loop has an unknown shape: {ast.unparse(s_loop)[:200]}")
+    if not (
+        isinstance(s_ret, ast.Return)
+        and isinstance(s_ret.value, ast.Call)
+        and isinstance(s_ret.value.func, ast.Attribute)
+        and s_ret.value.func.attr == "join"
+        and len(s_ret.value.args) == 1
+        and ast.unparse(s_ret.value.args[0]) == out
+    ):
+        raise ExtractError(f"{what}: does not return <constant>.join({out})")
+    join_sep = _const_str(s_ret.value.func.value, what)
+    if len(join_sep) != 1:
+        raise ExtractError(f"{what}: only a one-character joiner is modelled")
+    return {"split": ord(split_sep), "join": ord(join_sep)}
+
+
 def _pairs(ps: List[Tuple[str, str]]) -> str:
     return "[" + ", ".join(f"({lean_text(a)}, {lean_text(b)})" for a, b in ps) + "]"
 
@@ -382,7 +440,7 @@ def gen_Descr(repo: pathlib.Path) -> str:
     java = block_wrapper(repo, "aas_core_codegen/java/description.py")
     ts = block_wrapper(repo, "aas_core_codegen/typescript/description.py")
     cs = csharp(repo)
-    out = ["import AasVerif.Model.Text\n", HEADER.format(src="aas_core_codegen/<target>/description.py"), "namespace AasVerif.Gen.Descr\n"]
+    out = ["import AasVerif.Model.Text\n", HEADER.format(src="aas_core_codegen/<target>/description.py, aas_core_codegen/common.py"), "namespace AasVerif.Gen.Descr\n"]
 
     def d(name: str, ty: str, val: str) -> None:
         out.append(f"def {name} : {ty} := {val}\n")
@@ -408,5 +466,8 @@ def gen_Descr(repo: pathlib.Path) -> str:
     d("csRepl", "Text", lean_text(cs["repl"]))
     d("csEmpty", "Text", lean_text(cs["empty"]))
     d("csPre", "Text", lean_text(cs["pre"]))
+    ind = indent_helper(repo)
+    d("indentSplit", "Nat", str(ind["split"]))
+    d("indentJoin", "Nat", str(ind["join"]))
     out.append("end AasVerif.Gen.Descr\n")
     return "".join(out)
